@@ -420,6 +420,11 @@ func (p *Process) stopProcess(cancelReadinessFuncs bool) error {
 		}
 		p.readyLogCancelFn(fmt.Errorf("process %s was shut down", p.getName()))
 	}
+	if p.command == nil {
+		// this instance has not launched anything (its state was inherited from a previous
+		// instance of the process): there is nothing to signal
+		return nil
+	}
 	if isStringDefined(p.procConf.ShutDownParams.ShutDownCommand) {
 		return p.doConfiguredStop(p.procConf.ShutDownParams)
 	}
